@@ -103,6 +103,7 @@ class GenOptions:
     probe_rate: float = 0.9
     typing_bias: bool = False
     steady_loop: bool = False  # main loop keeps the amount of live list/str data constant
+    shrink_reassign: bool = False  # a list re-assigned with a shorter literal after len() uses: must be rejected (or be right)
 
 
 class ProgGen:
@@ -576,6 +577,11 @@ class ProgGen:
             self.mutated_lists.add(v)
             rhs = r.choice([self.str_lit(), f'("," + str({self.int_expr(env, 2)}))'])
         self.emit(depth, f"{v} {op} {rhs}")
+        if typ == "str" and "mon" in env and self.chance(0.5):
+            # right after an augmented assignment in the same block the name is run-time-only for the transpiler,
+            # so len() of it is evaluated on the device (unlike len() before it or in an enclosing block, which is
+            # the subject of the len_of_mutated finding)
+            self.emit(depth, f"mon.write(len({v}))")
         if self.chance(self.opts.probe_rate):
             self.probe(depth, env, [v])
 
@@ -877,14 +883,33 @@ class ProgGen:
         self.emit(depth, "try:")
         inner = dict(env)
         self.block(depth + 1, inner, ctx, self.rng.randint(1, 2))
-        self.emit(depth, "except Exception:")
-        self.emit(depth + 1, "pass")
+        handlers = self.rng.choice([["Exception"], ["Exception"], ["ValueError", "Exception"], ["ZeroDivisionError", "ValueError", "Exception"]])
+        for k, exc in enumerate(handlers):
+            self.emit(depth, f"except {exc}:")
+            if "mon" in env and self.chance(0.6):
+                self.emit(depth + 1, f'mon.write("handler {k}")')
+                if self.chance(0.4):
+                    self.emit(depth + 1, f"sleep({self.rng.choice([1, 5])})")
+            else:
+                self.emit(depth + 1, "pass")
 
     # ---- typing swarm (C02): names that get their type inside a branch or loop, mixed int/float flows
     def stmt_hoist_if(self, depth: int, env) -> None:
         r = self.rng
         typ = r.choice(["float", "float", "str", "bool", "int"] if self.opts.use_strings else ["float", "bool", "int"])
         name = self.fresh({"int": "n", "float": "x", "bool": "b", "str": "s"}[typ])
+        if typ == "float" and self.chance(0.3):
+            # the name starts as an int in each arm and is widened by an augmented assignment: the hoisted
+            # declaration has to take the final type
+            self.emit(depth, f"if {self.bool_expr(env)}:")
+            self.emit(depth + 1, f"{name} = {self.int_expr(env, 1, no_call=True)}")
+            self.emit(depth + 1, f"{name} {r.choice(['+= 0.5', '*= 1.25', '-= 0.25'])}")
+            self.emit(depth, "else:")
+            self.emit(depth + 1, f"{name} = {self.int_expr(env, 1, no_call=True)}")
+            self.emit(depth + 1, f"{name} {r.choice(['+= 1.5', '*= 0.5'])}")
+            env[name] = typ
+            self.probe(depth, env, [name])
+            return
         self.emit(depth, f"if {self.bool_expr(env)}:")
         self.emit(depth + 1, f"{name} = {self.expr(env, typ, 1)}")
         n_elif = r.choice([0, 0, 1])
@@ -1045,6 +1070,7 @@ class ProgGen:
         local_env = dict(env)
         for n, t in params:
             local_env[n] = t
+        widened = [n for n, t in params if t == "int" and self.opts.use_floats and self.chance(0.15) and n not in genv]
         saved_len_safe = set(self.len_safe)
         saved_frozen = set(self.frozen_len)
         self.len_safe = (self.len_safe - {n for n, _t in params}) | {n for n, t in params if t == "str"}
@@ -1054,6 +1080,10 @@ class ProgGen:
         body_env = dict(local_env)
         if "mon" in genv and not pure:
             body_env["mon"] = "mon"
+        for n in widened:
+            # an int parameter widened in place: callers keep passing ints, the variant's parameter becomes float
+            self.emit(1, f"{n} {r.choice(['+= 0.5', '*= 1.25'])}")
+            body_env[n] = "float"
         # locals: fresh names only (assigning to a global name would make it local in Python)
         protected = set(env)
         for _ in range(r.randint(0, 3)):
@@ -1443,8 +1473,24 @@ class ProgGen:
         if not o.main_loop:
             for d, line in deferred_loop:
                 self.emit(d, line)
+        shrink_name = None
+        if o.shrink_reassign and o.main_loop and o.use_lists:
+            # the transpiler folds len(name) from the length it tracked; a shorter re-assignment it cannot see at the
+            # point of use (later in the loop body / inside a branch) has to be refused, or the read runs off the list
+            shrink_name = self.fresh("zs")
+            n = r.randint(2, 5)
+            self.emit(0, f"{shrink_name} = [{', '.join(str(r.randint(0, 40)) for _ in range(n))}]")
+            self.shrink_len = n
         if o.main_loop:
             self.emit(0, "while True:")
+            if shrink_name is not None:
+                short = ", ".join(str(r.randint(0, 40)) for _ in range(r.randint(1, self.shrink_len - 1)))
+                self.emit(1, r.choice([f"mon.write({shrink_name}[len({shrink_name}) - 1])", f"for q in range(len({shrink_name})):\n        mon.write({shrink_name}[q])"]))
+                if r.random() < 0.5:
+                    self.emit(1, f"{shrink_name} = [{short}]")
+                else:
+                    self.emit(1, f"if {shrink_name}[0] >= 0:")
+                    self.emit(2, f"{shrink_name} = [{short}]")
             for d, line in deferred_loop:
                 self.emit(d + 1, line)
             loop_env = dict(env)
